@@ -94,7 +94,7 @@ def build_cases(tier):
     for pf in ("simple", "transport"):
         for newp in ("A", "B"):
             for d in DATES:
-                for zone in ("CET", "UTC"):
+                for zone in ("CET", "UTC", "naive"):   # naive: wall-clock time of the grid's zone, as for every other date handed to EAO
                     c = dict(pf=pf, newp=newp, gridarg="passed", tz="CET", window=dict(kind="date", date=d, form="aware:" + zone))
                     c["key"] = chash(c)
                     cases.append(c)
@@ -145,7 +145,8 @@ def run_case(case):
         from ref.grid import parse_instant
         if w["form"].startswith("aware:"):
             di = parse_instant(w["date"], case.get("tz"))
-            win_arg = pd.Timestamp(di).tz_convert(w["form"].split(":")[1]).to_pydatetime()
+            win_arg = pd.Timestamp(di).tz_convert(w["form"].split(":")[1]).to_pydatetime() if not w["form"].endswith(":naive") \
+                else pd.Timestamp(w["date"]).to_pydatetime()
         else:
             d = pd.Timestamp(w["date"]).to_pydatetime()
             win_arg = d.date() if w["form"] == "date" else d
